@@ -22,6 +22,8 @@ ASSUME LET gs == <<GridOf(<<1>>), GridOf(<<2>>)>>
                          y == IcdfPoint(gs[ch], 2 * ju - 1, 48)
                      IN RDiv(ROne, RDiv(RAdd(Density(gs[1], y), Density(gs[2], y)), R(2)))])
        IN ~REq(RDiv(Bad, R(144)), ROne)
+\* selector lattice with arbitrary weights: all weight vectors over 0..4 with three channels, lattice sizes incl. primes and 24
+ASSUME \A w \in {v \in [1 .. 3 -> 0 .. 4] : v[1] + v[2] + v[3] > 0} : \A Ms \in {1, 2, 3, 5, 7, 24} : SelectorCountOK(w, Ms)
 VARIABLE z
 Init == z = 0
 Next == z < 1 /\ z' = z + 1
